@@ -741,6 +741,15 @@ def verify_directory_hash_subcommand(
                         if entry_hash_format not in hash_formats:
                             hash_formats.append(entry_hash_format)
         if not hash_formats:
+            # the history of this folder has no directory hashes at all (created with -n only), nested histories
+            # may have some: use their formats, otherwise nothing that is recorded would be compared
+            for history in MHLHistory.walk_child_histories(existing_history):
+                for hash_list in history.hash_lists:
+                    root_media_hash = hash_list.process_info.root_media_hash
+                    for entry in root_media_hash.hash_entries if root_media_hash is not None else []:
+                        if entry.hash_format not in hash_formats:
+                            hash_formats.append(entry.hash_format)
+        if not hash_formats:
             hash_formats.append("c4")
             logger.verbose(f"default hash format: c4")
         else:
